@@ -1,5 +1,6 @@
 import Ccp.Proofs.Range
 import Ccp.Proofs.RangeCompress
+import Ccp.Proofs.RangeX
 /-!
 # C14 — integer range strings expand to the denoted set and compress back canonically
 
@@ -7,7 +8,7 @@ Property theorems only; helper lemmas live in `Ccp.Proofs.Range` and
 `Ccp.Proofs.RangeCompress`.
 -/
 namespace Ccp.C14
-open Ccp.Range Ccp.Py
+open Ccp.Range Ccp.Py Ccp.RangeX
 
 /-- spec: `n` is denoted by one comma-separated part -/
 def InPart (p : Nat × Option Nat) (n : Nat) : Prop :=
@@ -214,5 +215,280 @@ theorem failed_mutation_pure (d : List Nat) (op : Op) (e : Err) (h : (stepOp d o
 example : [Op.len, .iter, .list, .set, .cstr, .rexp, .has 3].all Op.isRead = true := by decide
 example : (stepOp [1, 3] (.app 2)).1 = [1, 2, 3] ∧ (stepOp [1, 3] (.rem 3)).1 = [1] ∧
     (stepOp [1, 3] (.app 3)) = ([1, 3], .err .duplicate) := by decide
+
+/-! ## Options: `result_type`, `reverse`, typed views, `append` / `remove` flags, `insert` -/
+
+/-- `CiscoRange(text, result_type=int, reverse=r)` holds what `parse` gives (so every theorem
+above applies to its data); `reverse` is only remembered. -/
+theorem construct_int (rev : Bool) (text : Str) :
+    construct .int rev text =
+      match parse text with
+      | .ok d => .ok ⟨d, rev⟩
+      | .error e => .error (.base e) := by
+  unfold construct
+  by_cases h0 : text = []
+  · subst h0; simp [parse]
+  · by_cases h1 : hasDoubleComma text = true
+    · simp [h0, h1, parse]
+    · simp only [h0, h1, if_false, Bool.false_eq_true]
+      cases parse text <;> rfl
+
+/-- An invalid `result_type` is refused for every text; `float` is refused for every text but
+`""` (which builds the empty range before the type is looked at). -/
+theorem construct_rejects (rev : Bool) (text : Str) :
+    (∃ e, construct .bad rev text = .error e) ∧
+    (text ≠ [] → ∃ e, construct .float rev text = .error e) ∧
+    construct .float rev [] = .ok ⟨[], rev⟩ := by
+  refine ⟨?_, ?_, by simp [construct]⟩
+  · unfold construct
+    by_cases h0 : text = []
+    · exact ⟨.base .invalidRange, by simp [h0]⟩
+    · by_cases h1 : hasDoubleComma text = true
+      · exact ⟨.base .invalidRange, by simp [h0, h1]⟩
+      · exact ⟨.base .invalidRange, by simp [h0, h1]⟩
+  · intro h0
+    unfold construct
+    by_cases h1 : hasDoubleComma text = true
+    · exact ⟨.base .invalidRange, by simp [h0, h1]⟩
+    · exact ⟨.notImplemented, by simp [h0, h1]⟩
+
+example : construct .bad false "1-3".toList = .error (.base .invalidRange) ∧
+    construct .float true "1-3".toList = .error .notImplemented ∧
+    (construct .int true "3,1-2".toList).toOption = some ⟨[1, 2, 3], true⟩ := by decide
+
+/-- the cast a view was asked for -/
+def castOf : Ty → ElTy
+  | .str => .s
+  | .float => .f
+  | _ => .i
+
+/-- **Every ordered view, in every cast**: `as_list(result_type=str|int|float)` succeeds for
+every state and returns a list of that cast holding each member exactly once, ascending —
+descending exactly when the range was built with `reverse=True`; `as_list()` (auto) does the
+same on a non-empty range. -/
+theorem as_list_ordered (s : St) (t : Ty) (ht : t = .str ∨ t = .int ∨ t = .float ∨ (t = .auto ∧ s.data ≠ [])) :
+    ∃ v, asList s t = .ok v ∧ v.isList = true ∧ (s.data ≠ [] → v.ty = castOf t) ∧
+      (∀ n, n ∈ v.items ↔ n ∈ s.data) ∧
+      (s.rev = false → v.items.Pairwise (· < ·)) ∧ (s.rev = true → v.items.Pairwise (· > ·)) := by
+  have hne : s.data ≠ [] → ordered s ≠ [] := by
+    intro h e
+    obtain ⟨x, hx⟩ := List.exists_mem_of_ne_nil _ h
+    have : x ∈ ordered s := by
+      unfold ordered; split <;> simp [mem_sortedSet, hx]
+    rw [e] at this; exact absurd this (by simp)
+  have hmem : ∀ n, n ∈ ordered s ↔ n ∈ s.data := by
+    intro n; unfold ordered; split <;> simp [mem_sortedSet]
+  have hasc : s.rev = false → (ordered s).Pairwise (· < ·) := by
+    intro h; unfold ordered; simp [h]; exact sortedSet_sorted _
+  have hdesc : s.rev = true → (ordered s).Pairwise (· > ·) := by
+    intro h; unfold ordered; simp only [h, if_true]
+    exact List.pairwise_reverse.mpr (sortedSet_sorted s.data)
+  rcases ht with rfl | rfl | rfl | ⟨rfl, hd⟩
+  · exact ⟨_, rfl, rfl, fun h => by simp [elTy, hne h, castOf], hmem, hasc, hdesc⟩
+  · exact ⟨_, rfl, rfl, fun h => by simp [elTy, hne h, castOf], hmem, hasc, hdesc⟩
+  · exact ⟨_, rfl, rfl, fun h => by simp [elTy, hne h, castOf], hmem, hasc, hdesc⟩
+  · exact ⟨⟨true, .i, ordered s⟩, by simp [asList, hd], rfl, fun _ => rfl, hmem, hasc, hdesc⟩
+
+/-- … and `as_set(result_type=…)` holds each member exactly once in that cast, whatever
+`reverse` is (the members are listed ascending by the model). -/
+theorem as_set_members (s : St) (t : Ty) (ht : t = .str ∨ t = .int ∨ t = .float ∨ (t = .auto ∧ s.data ≠ [])) :
+    ∃ v, asSet s t = .ok v ∧ v.isList = false ∧ (s.data ≠ [] → v.ty = castOf t) ∧
+      (∀ n, n ∈ v.items ↔ n ∈ s.data) ∧ v.items.Pairwise (· < ·) := by
+  have hne : s.data ≠ [] → sortedSet s.data ≠ [] := by
+    intro h e
+    obtain ⟨x, hx⟩ := List.exists_mem_of_ne_nil _ h
+    have : x ∈ sortedSet s.data := (mem_sortedSet _ _).mpr hx
+    rw [e] at this; exact absurd this (by simp)
+  rcases ht with rfl | rfl | rfl | ⟨rfl, hd⟩
+  · exact ⟨_, rfl, rfl, fun h => by simp [elTy, hne h, castOf], mem_sortedSet _, sortedSet_sorted _⟩
+  · exact ⟨_, rfl, rfl, fun h => by simp [elTy, hne h, castOf], mem_sortedSet _, sortedSet_sorted _⟩
+  · exact ⟨_, rfl, rfl, fun h => by simp [elTy, hne h, castOf], mem_sortedSet _, sortedSet_sorted _⟩
+  · exact ⟨⟨false, .i, sortedSet s.data⟩, by simp [asSet, hd], rfl, fun _ => rfl, mem_sortedSet _, sortedSet_sorted _⟩
+
+example : asList ⟨[1, 2, 3, 7], true⟩ .str = .ok ⟨true, .s, [7, 3, 2, 1]⟩ ∧
+    asSet ⟨[1, 2, 3, 7], true⟩ .float = .ok ⟨false, .f, [1, 2, 3, 7]⟩ ∧
+    asList ⟨[1, 2], false⟩ .none = .error (.base .valueError) ∧
+    asSet ⟨[1, 2], false⟩ .none = .error .invalidInterface ∧
+    asList ⟨[], false⟩ .auto = .ok ⟨false, .e, []⟩ := by decide
+
+/-- With the default flags the option form of `append` is `append` (sorted-set insertion,
+`DuplicateMember` exactly for a member). -/
+theorem appendX_plain (d : List Nat) (v : Nat) (hd : d.Pairwise (· < ·)) :
+    appendX d (.int v) true false = (append d v).mapError XErr.base := by
+  unfold appendX append
+  by_cases hv : v ∈ d
+  · simp [Val.isInt, Val.isIn, hv, Except.mapError]
+  · simp [Val.isInt, Val.isIn, hv, Except.mapError]
+    exact sortDup_eq_sortedSet _ (nodup_append_new d v hd hv)
+
+/-- `ignore_errors=True` changes nothing for a value that is not a member yet … -/
+theorem appendX_ignore_new (d : List Nat) (v : Nat) (hd : d.Pairwise (· < ·)) (hv : v ∉ d) :
+    appendX d (.int v) true true = .ok (sortedSet (d ++ [v])) := by
+  simp [appendX, Val.isInt, Val.isIn, hv]
+  exact sortDup_eq_sortedSet _ (nodup_append_new d v hd hv)
+
+/-- … **but for a member it is not the set insertion the property asks for** (known finding
+FC14a): the call succeeds and the member is in the data twice — one more element, still
+non-decreasing, no longer strictly ascending. -/
+theorem appendX_ignore_dup_witness (d : List Nat) (v : Nat) (hd : d.Pairwise (· < ·)) (hv : v ∈ d) :
+    ∃ d', appendX d (.int v) true true = .ok d' ∧ d'.length = d.length + 1 ∧ d'.count v = 2 ∧
+      d'.Pairwise (· ≤ ·) ∧ ¬ d'.Pairwise (· < ·) := by
+  refine ⟨sortDup (d ++ [v]), by simp [appendX, Val.isInt, Val.isIn], ?_, ?_, sortDup_sorted _, ?_⟩
+  · simp [length_sortDup]
+  · rw [count_sortDup]
+    have : d.count v = 1 := by rw [(nodup_of_asc d hd).count]; simp [hv]
+    simp [List.count_append, this]
+  · intro hp
+    have hn : (sortDup (d ++ [v])).Nodup := hp.imp (fun h => Nat.ne_of_lt h)
+    have h2 : (sortDup (d ++ [v])).count v = 2 := by
+      rw [count_sortDup]
+      have : d.count v = 1 := by rw [(nodup_of_asc d hd).count]; simp [hv]
+      simp [List.count_append, this]
+    have := List.nodup_iff_count.mp hn v
+    omega
+
+example : [1, 2, 3].Pairwise (· < ·) ∧ 2 ∈ [1, 2, 3] ∧
+    appendX [1, 2, 3] (.int 2) true true = .ok [1, 2, 2, 3] := by decide
+
+/-- `sort=False` puts a new value at the end; a `str` is refused by a non-empty range unless
+`ignore_errors` is set (then it is converted); a non-numeric `str` never changes the data. -/
+theorem appendX_other_forms (d : List Nat) (v : Nat) (sort ign : Bool) :
+    (v ∉ d → appendX d (.int v) false ign = .ok (d ++ [v])) ∧
+    (d ≠ [] → appendX d (.strOf v) sort false = .error .mismatched) ∧
+    (appendX d (.strOf v) sort true = appendX d (.int v) sort true) ∧
+    (appendX d .junk sort ign = .ok d ∨ appendX d .junk sort ign = .error .mismatched) := by
+  refine ⟨?_, ?_, ?_, ?_⟩
+  · intro hv
+    simp [appendX, Val.isInt, Val.isIn, hv]
+  · intro h; simp [appendX, Val.isInt, h]
+  · simp [appendX, Val.isInt, Val.isIn]
+  · unfold appendX
+    by_cases h : d ≠ [] ∧ Val.junk.isInt = false ∧ ign = false
+    · right; simp [h]
+    · left; simp [h, Val.isIn]
+
+/-- With the default flag the option form of `remove` is `remove`, for every state. -/
+theorem removeX_plain (d : List Nat) (v : Nat) :
+    removeX d (.int v) false = (remove d v).mapError XErr.base := by
+  unfold removeX remove
+  by_cases hm : v ∈ d
+  · have hne : d ≠ [] := List.ne_nil_of_mem hm
+    simp [Val.isIn, hm, hne, Except.mapError, (filter_length_lt_iff d v).mpr hm]
+  · by_cases hne : d = []
+    · simp [Val.isIn, hne, Except.mapError]
+    · simp [Val.isIn, hm, hne, Except.mapError]
+
+/-- `remove(v, ignore_errors=True)` is set deletion without the error: nothing happens for an
+absent value, a member is taken out. `remove(None)` never changes the data. -/
+theorem removeX_ignore (d : List Nat) (v : Nat) (ign : Bool) :
+    (v ∉ d → removeX d (.int v) true = .ok d) ∧
+    (v ∈ d → removeX d (.int v) true = .ok (d.filter (· != v))) ∧
+    (removeX d .junk ign = .ok d ∨ removeX d .junk ign = .error (.base .absent)) := by
+  refine ⟨?_, ?_, ?_⟩
+  · intro hv
+    simp [removeX, Val.isIn, hv]
+  · intro hm
+    have hne : d ≠ [] := List.ne_nil_of_mem hm
+    simp [removeX, Val.isIn, hm, hne, (filter_length_lt_iff d v).mpr hm]
+  · unfold removeX
+    cases ign
+    · right; by_cases hne : d = [] <;> simp [Val.isIn, hne]
+    · left; simp [Val.isIn]
+
+example : removeX [1, 3] (.int 2) true = .ok [1, 3] ∧ removeX [1, 3] (.int 3) true = .ok [1] ∧
+    removeX [1, 3] (.strOf 3) false = .ok [1] ∧ removeX [1, 3] (.strOf 3) true = .ok [1, 3] ∧
+    removeX [] (.int 3) false = .error (.base .absent) := by decide
+
+/-- **Readers are pure, option forms included**: every typed view, `insert` (always refused)
+and every reader of the plain interface leave data and `reverse` as they were. -/
+theorem readersX_pure (s : St) (op : OpX) (h : op.isRead = true) : (stepX s op).1 = s := by
+  cases op with
+  | old o => cases o <;> first | rfl | exact absurd h (by simp [OpX.isRead, Op.isRead])
+  | list t => rfl
+  | set t => rfl
+  | app v a b => exact absurd h (by simp [OpX.isRead])
+  | rem v a => exact absurd h (by simp [OpX.isRead])
+  | ins k => rfl
+
+theorem readersX_pure_seq (s : St) (ops : List OpX) (h : ∀ op ∈ ops, op.isRead = true) :
+    ops.foldl (fun st op => (stepX st op).1) s = s := by
+  induction ops with
+  | nil => rfl
+  | cons op ops ih =>
+    rw [List.foldl_cons, readersX_pure s op (h op (by simp))]
+    exact ih (fun o ho => h o (by simp [ho]))
+
+/-- A refused call leaves the state as it was. -/
+theorem failedX_pure (s : St) (op : OpX) (e : XErr) (h : (stepX s op).2 = .err e) :
+    (stepX s op).1 = s := by
+  cases op with
+  | old o =>
+    cases o <;> try rfl
+    all_goals (simp only [stepX] at h ⊢; split <;> simp_all)
+  | list t => rfl
+  | set t => rfl
+  | app v a b => simp only [stepX] at h ⊢; split <;> simp_all
+  | rem v a => simp only [stepX] at h ⊢; split <;> simp_all
+  | ins k => rfl
+
+/-- On the plain interface the option model moves the data exactly as `stepOp` does. -/
+theorem stepX_old_state (d : List Nat) (r : Bool) (o : Op) (hd : d.Pairwise (· < ·)) :
+    (stepX ⟨d, r⟩ (.old o)).1 = ⟨(stepOp d o).1, r⟩ := by
+  cases o <;> try rfl
+  · rename_i k
+    simp only [stepX, stepOp, appendX_plain d k hd]
+    cases append d k <;> rfl
+  · rename_i k
+    simp only [stepX, stepOp, removeX_plain d k]
+    cases remove d k <;> rfl
+
+example : [OpX.list .str, .set .bad, .ins 4, .old .len, .old (.has 3)].all OpX.isRead = true := by decide
+example : (stepX ⟨[1, 3], true⟩ (.app (.int 2) false false)).1 = ⟨[1, 3, 2], true⟩ ∧
+    (stepX ⟨[1, 3], true⟩ (.ins 2)) = (⟨[1, 3], true⟩, .err .notImplemented) := by decide
+
+/-! ## `reverse` touches `as_list` only; `str()`, `repr()`, `obj[k]`, `==`, `obj.data` -/
+
+/-- **`reverse` is visible in `as_list` only**: whatever the flag, every other call gives the same
+answer and leaves the same data (iteration, `obj.data`, `len`, `as_set`, the compressed string,
+membership, `append`, `remove`, `insert` do not depend on it), and so do the five further
+readers. -/
+theorem reverse_only_in_as_list (d : List Nat) (r1 r2 : Bool) (op : OpX)
+    (h1 : ∀ t, op ≠ .list t) (h2 : op ≠ .old .list) :
+    (stepX ⟨d, r1⟩ op).2 = (stepX ⟨d, r2⟩ op).2 ∧
+    (stepX ⟨d, r1⟩ op).1.data = (stepX ⟨d, r2⟩ op).1.data := by
+  cases op with
+  | old o =>
+    cases o <;> first
+      | exact absurd rfl h2
+      | exact ⟨rfl, rfl⟩
+      | (simp only [stepX]; constructor <;> (split <;> rfl))
+  | list t => exact absurd rfl (h1 t)
+  | set t => exact ⟨rfl, rfl⟩
+  | app v a b => simp only [stepX]; constructor <;> (split <;> rfl)
+  | rem v a => simp only [stepX]; constructor <;> (split <;> rfl)
+  | ins k => exact ⟨rfl, rfl⟩
+
+theorem reverse_not_in_readers (rt : CTy) (fresh d : List Nat) (r1 r2 : Bool) (r : ReadOp) :
+    readX rt fresh ⟨d, r1⟩ r = readX rt fresh ⟨d, r2⟩ r := by
+  cases r <;> rfl
+
+/-- The further readers: `obj.data` is what iteration gives, `obj[k]` is the `k`-th member in
+that order and raises `IndexError` from `len` on, `==` against a freshly parsed range holds
+exactly while the data are the parsed ones. -/
+theorem further_readers (rt : CTy) (fresh : List Nat) (s : St) (k : Nat) :
+    readX rt fresh s .data = .old (stepOp s.data .iter).2 ∧
+    (∀ h : k < s.data.length, readX rt fresh s (.idx k) = .old (.nat s.data[k])) ∧
+    (s.data.length ≤ k → readX rt fresh s (.idx k) = .err .indexError) ∧
+    (readX rt fresh s .eqFresh = .old (.bool true) ↔ s.data = fresh) := by
+  refine ⟨rfl, ?_, ?_, ?_⟩
+  · intro h; simp [readX, List.getElem?_eq_getElem h]
+  · intro h; simp [readX, List.getElem?_eq_none h]
+  · simp [readX]
+
+example : readX .int [1, 2, 3] ⟨[1, 2, 3], true⟩ .str = .old (.str "[1, 2, 3]".toList) ∧
+    readX .int [1, 2, 3] ⟨[1, 2, 3], true⟩ .repr = .old (.str "<CiscoRange [1, 2, 3] members: <class 'int'>>".toList) ∧
+    readX .float [] ⟨[], false⟩ .repr = .old (.str "<CiscoRange [] result_type: <class 'float'>>".toList) ∧
+    readX .int [1, 2, 3] ⟨[1, 3], true⟩ .eqFresh = .old (.bool false) ∧
+    readX .int [1, 2, 3] ⟨[1, 3], true⟩ (.idx 2) = .err .indexError := by decide +kernel
 
 end Ccp.C14
